@@ -356,6 +356,17 @@ class IkeSa(object):
         message = Message.parse(data, header_only=False, crypto=self.peer_crypto)
         self.log_message(message, data, send=False)
 
+        # once this IKE_SA has keys, only integrity protected messages may have any effect on it. The only
+        # exception is a retransmitted IKE_SA_INIT request, which is answered with the stored response
+        if self.peer_crypto is not None and not message.is_protected:
+            if (self.state == IkeSa.State.INIT_RES_SENT and message.is_request
+                    and message.exchange_type == Message.Exchange.IKE_SA_INIT
+                    and Message.parse(data).to_bytes() == self.ike_sa_init_req_data):
+                self.log_warning('Retransmission detected. Sending last sent message')
+                return self.last_sent_response_data
+            self.log_warning('Received an unprotected message for an IKE_SA that already has keys. Ignoring')
+            return None
+
         # check the role the sender claims to have corresponds with what we think about ourselves
         if message.is_initiator == self.is_initiator:
             self.log_error('Received a message with the wrong "INITIATOR" flag. Ignoring')
